@@ -2159,6 +2159,18 @@ class Interp(object):
             return [(st, args[0])]
         if name in ('strtol', 'strtoul', 'strtoll', 'strtoull', 'strtod', 'strtof', 'strtold'):
             return self.model_strto(st, inst, name, args)
+        if name in ('snprintf', 'vsnprintf'):
+            d, n = args[0], args[1]
+            nl = self.as_u(st, n) if isinstance(n, IntV) else None
+            snap = None
+            if isinstance(args[2], PtrV) and args[2].obj in st.objs:
+                fo = st.objs[args[2].obj]
+                snap = (dict(fo.cells), list(fo.regions), args[2])
+            st.ev('snprintf', inst, d, nl, snap, list(args[3:]))
+            if isinstance(d, PtrV) and nl is not None:
+                self.region_write(st, inst, d, nl, ('havoc', 'snprintf'), 'snprintf')
+            # returns the untruncated length; conversions of a floating-point value always produce at least one character
+            return [(st, self.fresh_int(st, 32, 'printed', signed=True, lo=1, hi=(1 << 31) - 1))]
         if name == 'abs' or name == 'labs' or name == 'llabs':
             st.ev('abs', inst, args[0])
             return [(st, self.fresh_int(st, int_bits(inst.ty) or 32, 'abs', signed=True))]
